@@ -46,8 +46,8 @@ def build(mods):
     member_of = {v: k for k, v in code_of.items()}
     C = {}
 
-    def reg(fn, spec, requires=None, engine=False, note=''):
-        C[fn] = Contract(fn, spec, requires, engine=engine, note=note)
+    def reg(fn, spec, requires=None, engine=False, note='', raises=None):
+        C[fn] = Contract(fn, spec, requires, engine=engine, note=note, raises=raises)
 
     # ---- bits_ops
     reg(bo.add, lambda a, b, n: uint(a + b, n), lambda a, b, n: n >= 0)
@@ -89,8 +89,8 @@ def build(mods):
         lambda b, i, v: land(i >= 0, i < 256, in_range(b, 256), is01(v)))
     reg(bo.chain, lambda h, l, n: (h << n) + l, lambda h, l, n: n >= 0)
     reg(bo.bit_count, lambda b, bt, n: ite(bt, popcount_any(b), n - popcount_any(b)), lambda b, bt, n: b >= 0)
-    reg(bo.big_endian_reverse, lambda v, n: P.BigEndianReverse(v, n),
-        lambda v, n: land(lor(n == 1, n == 2, n == 4, n == 8), in_range(v, 8 * n)))
+    reg(bo.big_endian_reverse, lambda v, n: P.BigEndianReverse(v, n), lambda v, n: in_range(v, 8 * n),
+        raises=[(lambda v, n: lnot(lor(n == 1, n == 2, n == 4, n == 8)), AssertionError)])
     reg(bo.is_ones, lambda b, n: popcount_any(b) == n, lambda b, n: b >= 0)
 
     # ---- shift
@@ -103,7 +103,8 @@ def build(mods):
             if eng.istrue(st == code):
                 return member_of[code], n
         return member_of[P.RRX], n
-    reg(sh.decode_imm_shift, decode_imm_shift_spec, lambda eng, t, i: land(t >= 0, t <= 3, i >= 0, i <= 31), engine=True)
+    reg(sh.decode_imm_shift, decode_imm_shift_spec, lambda eng, t, i: land(i >= 0, i <= 31), engine=True,
+        raises=[(lambda t, i: lnot(land(t >= 0, t <= 3)), UnboundLocalError)])
 
     def decode_reg_shift_spec(eng, t):
         if isinstance(t, int):
@@ -112,13 +113,14 @@ def build(mods):
             if eng.istrue(t == code):
                 return member_of[code]
         return member_of[P.ROR]
-    reg(sh.decode_reg_shift, decode_reg_shift_spec, lambda eng, t: land(t >= 0, t <= 3), engine=True)
+    reg(sh.decode_reg_shift, decode_reg_shift_spec, engine=True,
+        raises=[(lambda t: lnot(land(t >= 0, t <= 3)), UnboundLocalError)])
 
     rng = lambda x, N: land(N >= 1, in_range(x, N))
-    reg(sh.lsl_c, lambda x, N, s: P.LSL_C(x, N, s), lambda x, N, s: land(s > 0, rng(x, N)))
-    reg(sh.lsr_c, lambda x, N, s: P.LSR_C(x, N, s), lambda x, N, s: land(s > 0, rng(x, N)))
-    reg(sh.asr_c, lambda x, N, s: P.ASR_C(x, N, s), lambda x, N, s: land(s > 0, rng(x, N)))
-    reg(sh.ror_c, lambda x, N, s: P.ROR_C(x, N, s), lambda x, N, s: land(s != 0, rng(x, N)))
+    reg(sh.lsl_c, lambda x, N, s: P.LSL_C(x, N, s), lambda x, N, s: rng(x, N), raises=[(lambda x, N, s: lnot(s > 0), AssertionError)])
+    reg(sh.lsr_c, lambda x, N, s: P.LSR_C(x, N, s), lambda x, N, s: rng(x, N), raises=[(lambda x, N, s: lnot(s > 0), AssertionError)])
+    reg(sh.asr_c, lambda x, N, s: P.ASR_C(x, N, s), lambda x, N, s: rng(x, N), raises=[(lambda x, N, s: lnot(s > 0), AssertionError)])
+    reg(sh.ror_c, lambda x, N, s: P.ROR_C(x, N, s), lambda x, N, s: rng(x, N), raises=[(lambda x, N, s: s == 0, AssertionError)])
     reg(sh.rrx_c, lambda x, N, c: P.RRX_C(x, N, c2i(c)), lambda x, N, c: land(rng(x, N), is01(c)))
     reg(sh.lsl, lambda x, N, s: ite(s == 0, x, P.LSL_C(x, N, ite(s == 0, 1, s))[0]), lambda x, N, s: land(s >= 0, rng(x, N)))
     reg(sh.lsr, lambda x, N, s: ite(s == 0, x, P.LSR_C(x, N, ite(s == 0, 1, s))[0]), lambda x, N, s: land(s >= 0, rng(x, N)))
@@ -129,12 +131,14 @@ def build(mods):
     def shift_c_req(v, N, t, a, c):
         if t not in code_of:
             return False
-        return land(a >= 0, rng(v, N), is01(c), True if t is not SR.RRX else a == 1)
+        return land(a >= 0, rng(v, N), is01(c))
+
+    shift_c_raises = [(lambda v, N, t, a, c: (a != 1) if t is SR.RRX else False, AssertionError)]
 
     def shift_c_spec(v, N, t, a, c):
         return P.Shift_C(v, N, code_of[t], a, c2i(c))
-    reg(sh.shift_c, shift_c_spec, shift_c_req)
-    reg(sh.shift, lambda v, N, t, a, c: shift_c_spec(v, N, t, a, c)[0], shift_c_req)
+    reg(sh.shift_c, shift_c_spec, shift_c_req, raises=shift_c_raises)
+    reg(sh.shift, lambda v, N, t, a, c: shift_c_spec(v, N, t, a, c)[0], shift_c_req, raises=shift_c_raises)
     reg(sh.arm_expand_imm_c, lambda i, c: P.ARMExpandImm_C(i, c2i(c)), lambda i, c: land(i >= 0, is01(c)))
     reg(sh.arm_expand_imm, lambda i: P.ARMExpandImm(i), lambda i: i >= 0)
 
